@@ -11,7 +11,7 @@
 
 use super::archive::{archive_path, root_pair_hash, Archive};
 use super::meta::discover_local_fingerprints;
-use super::reconcile::{reconcile, Action, ConflictKind, FpMap};
+use super::reconcile::{reconcile, Action, ConflictKind, FileType, FpMap};
 use std::path::{Path, PathBuf};
 
 pub struct BidirOptions {
@@ -225,7 +225,14 @@ fn apply(
             let (Some(fa), Some(fb)) = (a.get(rel), b.get(rel)) else {
                 return Ok(());
             };
-            let (win_root, win_fp, lose_root, lose_fp) = if fa.blake3 >= fb.blake3 {
+            // Equal digests that differ in entry type only (a file holding exactly a
+            // link's target string) must not be decided by which root was named first:
+            // the regular file wins on both ends.
+            let a_wins = match fa.blake3.cmp(&fb.blake3) {
+                std::cmp::Ordering::Equal => fa.ftype == FileType::File,
+                o => o == std::cmp::Ordering::Greater,
+            };
+            let (win_root, win_fp, lose_root, lose_fp) = if a_wins {
                 (root_a, fa, root_b, fb)
             } else {
                 (root_b, fb, root_a, fa)
